@@ -38,12 +38,13 @@ type FullSnapshot struct {
 	Frontier *Term
 	Locks    map[string]int
 	HavRepo  bool
+	HavExcept []string
 	HavExt   bool
 	HavGhost bool
 }
 
 func (st *State) snapshotFull() *FullSnapshot {
-	s := &FullSnapshot{Heap: map[string]*Term{}, Frontier: st.Frontier, Locks: copyLocks(st.Locks), HavRepo: st.HavRepo, HavExt: st.HavExt, HavGhost: st.HavGhost}
+	s := &FullSnapshot{Heap: map[string]*Term{}, Frontier: st.Frontier, Locks: copyLocks(st.Locks), HavRepo: st.HavRepo, HavExt: st.HavExt, HavGhost: st.HavGhost, HavExcept: append([]string{}, st.HavExcept...)}
 	for k, v := range st.Heap {
 		s.Heap[k] = v
 	}
@@ -56,7 +57,7 @@ func (env *SpecEnv) oldView() *State {
 		return env.st
 	}
 	v := &State{PC: env.st.PC, Frontier: env.old.Frontier, Heap: map[string]*Term{}, Locals: env.st.Locals, Locks: env.old.Locks,
-		Fresh: env.st.Fresh, Written: map[string]bool{}, HavRepo: env.old.HavRepo, HavExt: env.old.HavExt, HavGhost: env.old.HavGhost, Frames: env.st.Frames}
+		Fresh: env.st.Fresh, Written: map[string]bool{}, HavRepo: env.old.HavRepo, HavExt: env.old.HavExt, HavGhost: env.old.HavGhost, HavExcept: env.old.HavExcept, Frames: env.st.Frames}
 	for k, t := range env.old.Heap {
 		v.Heap[k] = t
 	}
